@@ -41,15 +41,41 @@ def edge_lines(r):
     return [l for l in r.out.splitlines() if l.startswith('"E')]
 
 
-def graph_replay(ctx, auth, lines, pepper, budget, walks, walklen, label, max_states=None):
+def graph_replay(ctx, auth, lines, pepper, budget, walks, walklen, label, max_states=None, env=None):
     args = ["graph", "1" if pepper else "0"] + LIVES + [str(budget), str(walks), str(walklen)]
     if max_states:
         args.append(str(max_states))
-    p = run_bin(auth, args, stdin_data="\n".join(lines) + "\n", timeout=3000)
+    p = run_bin(auth, args, stdin_data="\n".join(lines) + "\n", timeout=3000, env=env)
     res = [x for x in parse_jsonl(p.stdout) if x.get("summary")]
     if p.returncode != 0 or not res:
         raise vlib.ToolError("auth graph (%s) failed rc=%s: %s" % (label, p.returncode, p.stderr[-2000:]))
     return res[0]
+
+
+def report_drift(ctx, s, label):
+    """differences that do not touch the statement of C17: which AuthError / status a refusal carries, `exists`, the
+    answer of remove_user for an absent uid, and stored fields the code model predicts differently (probed harmless)"""
+    for m in s.get("first_drift_results", [])[:4]:
+        ctx.drift("C17 code model (result details beyond the statement)", "%s: %s %s: %s (%d such results)"
+                  % (label, json.dumps(m.get("call")), m.get("concrete", ""), m["what"], s["drift_results"]), {"kind": "auth-drift", "case": m})
+    for m in s.get("first_drift_state", [])[:4]:
+        ctx.drift("C17 code model (stored state beyond the statement)", "%s: state %s call %s %s: %s; every later get_uid_by_token / refusal "
+                  "up to the model's horizon still answers as the statement demands (%d such edges)"
+                  % (label, json.dumps(m.get("state")), json.dumps(m.get("call")), m.get("concrete", ""), m["what"], s["drift_state"]),
+                  {"kind": "auth-drift", "case": m})
+
+
+def lenient_pass(gctx, auth, lines):
+    """Growth: arguments that differ from a real uid / token / cookie name only by case, white-space padding or Unicode
+    look-alikes, expected to be treated as unknown.  A tree that normalises its input before the lookup does not
+    contradict the statement of C17, so whatever this pass finds is drift."""
+    s = graph_replay(gctx, auth, lines, False, 1, 0, 0, "lenient concretisations", max_states=600, env={"VERIF_AUTH_LENIENT": "1"})
+    mine = [m for m in s["first"] if m.get("call") and (m["call"]["cookie"] == "wrongname" or (m["call"]["tok"] == 0 and m["call"]["u"] == 0))]
+    for m in mine[:4]:
+        gctx.violation("argument differing from an issued one by case / padding / look-alike only: state %s call %s %s: %s"
+                       % (json.dumps(m.get("state")), json.dumps(m.get("call")), m.get("concrete", ""), m["difference"]),
+                       {"kind": "auth-ops", "ops": m.get("ops"), "mismatch": m})
+    return {"edges_executed": s["edges_run"], "calls": s["calls"], "treated_as_the_real_argument": len(mine)}
 
 
 def validate_trace(ctx, path, name, timeout=1500):
@@ -73,10 +99,19 @@ def is_eo_trace(rej):
 
 def trace_verdict(ctx, t, records, what):
     """records: the list of logged records (dicts) in file order. Reports violations; returns #rejected runs."""
+    # differences in what the statement leaves open (error kind, status, exists, stored state): drift, never a violation
+    for pr in t.prints:
+        for d in (pr.get("drift") or [])[:4] if isinstance(pr, dict) else []:
+            lg = d["logged"]
+            ctx.drift("C17 code model (results/state beyond the statement)",
+                      "%s: call %s returned %s %s %s, database %s; the code model says %s, database %s"
+                      % (what, {k: lg[k] for k in ("op", "u", "pw", "life", "tok", "ck")}, lg["res"], lg.get("detail", ""), lg.get("note", ""),
+                         lg["st"], d["spec_result"], d["spec_state"]), {"kind": "auth-drift", "record": d})
     if not t.violation:
         return 0
-    if t.violation == "invariant" and t.violated_name == "AllAgree" and t.prints:
-        rej = t.prints[-1]["rejected"]
+    rejp = [pr for pr in t.prints if isinstance(pr, dict) and "rejected" in pr]
+    if t.violation == "invariant" and t.violated_name == "AllAgree" and rejp:
+        rej = rejp[-1]["rejected"]
         shown = {}
         for r in rej:
             i = r["index"] - 1
@@ -114,7 +149,7 @@ def token_shape(auth, n, pepper, work, tag):
 
 def shape_verdict(recs, work, tag):
     path = os.path.join(work, "tokens-%s-%d.ndjson" % (tag, os.getpid()))
-    vlib.write_lines(path, [{"d": r["d"]} for r in recs])
+    vlib.write_lines(path, [{"d": r["d"], "c": r.get("c", r["d"])} for r in recs])
     try:
         return run_tlc("TokenShape.tla", "TokenShape.cfg", D, workers=1, env={"TOKENS": path}, timeout=600,
                        work_id="c17-shape-" + tag)
@@ -123,8 +158,9 @@ def shape_verdict(recs, work, tag):
 
 
 def shape_failure_text(t):
-    if t.prints:
-        f = t.prints[-1]
+    fp = [x for x in t.prints if isinstance(x, dict) and "failed" in x]
+    if fp:
+        f = fp[-1]
         return "token structure: %s fails over %d tokens (%s)" % (
             ", ".join(f.get("failed", [])), f.get("tokens", 0),
             "; ".join("%s=%s" % (k, json.dumps(v)[:160]) for k, v in f.items() if k not in ("failed", "tokens")))
@@ -282,11 +318,17 @@ def run(tier, replay):
                               {"kind": "auth-ops", "ops": m["ops"], "mismatch": m})
             if s["mismatches"] == 0 and s["states_reached"] != s["states_total"]:
                 tool_errors.append("graph replay reached %d of %d states without any mismatch" % (s["states_reached"], s["states_total"]))
-            if s["token_dups"] or s["token_bad_format"]:
-                ctx.violation("%s: %d repeated tokens, %d tokens not of the form [0-9a-f]{64} among %d issued"
-                              % (label, s["token_dups"], s["token_bad_format"], s["tokens_issued"]),
-                              {"kind": "auth-token-format", "summary": {k: s[k] for k in ("token_dups", "token_bad_format", "tokens_issued")}})
+            report_drift(ctx, s, label)
+            if s["token_dups"]:
+                ctx.violation("%s: %d repeated tokens among %d issued" % (label, s["token_dups"], s["tokens_issued"]),
+                              {"kind": "auth-token-repeat", "summary": {k: s[k] for k in ("token_dups", "tokens_issued")}})
+            if s["token_bad_format"]:
+                # the statement says 256-bit random values, not how they are written
+                ctx.drift("C17 token encoding", "%s: %d token issuances (%d distinct tokens) not of the form [0-9a-f]{64}" % (label, s["token_bad_format"], s["tokens_issued"]),
+                          {"kind": "auth-token-format", "summary": {k: s[k] for k in ("token_bad_format", "tokens_issued")}})
     ctx.cov["distinct_nontrivial"] = nontrivial
+    r = vlib.run_growth(ctx, "C17 input normalisation (case / padding / look-alikes)", lenient_pass, auth, first_lines)
+    ctx.add_part("growth: lenient concretisations", **(r or {"result": "did not complete"}))
 
     # ---------------------------------------------------------------- 3. random histories validated by TLC
     n = 2000 if thorough else 150
@@ -312,10 +354,12 @@ def run(tier, replay):
     ctx.add_part("random histories", histories=n, records=len(records), rejected_histories=rejected,
                  tokens_issued=summ["tokens_issued"], token_dups=summ["token_dups"], token_bad_format=summ["token_bad_format"],
                  ops={o: sum(1 for x in records if x["op"] == o) for o in sorted(set(x["op"] for x in records))})
-    if summ["token_dups"] or summ["token_bad_format"]:
-        ctx.violation("random histories: %d repeated tokens, %d tokens not of the form [0-9a-f]{64} among %d issued"
-                      % (summ["token_dups"], summ["token_bad_format"], summ["tokens_issued"]),
-                      {"kind": "auth-token-format", "summary": summ})
+    if summ["token_dups"]:
+        ctx.violation("random histories: %d repeated tokens among %d issued" % (summ["token_dups"], summ["tokens_issued"]),
+                      {"kind": "auth-token-repeat", "summary": summ})
+    if summ["token_bad_format"]:
+        ctx.drift("C17 token encoding", "random histories: %d of %d tokens are not of the form [0-9a-f]{64}"
+                  % (summ["token_bad_format"], summ["tokens_issued"]), {"kind": "auth-token-format", "summary": summ})
     k = next((i for i, x in enumerate(records) if x["op"] == "reset" and i > 0), len(records))
     ctx.sample({"history_excerpt": [{f: x[f] for f in ("op", "u", "pw", "life", "tok", "ck", "res", "ruid", "rtok", "c", "st")}
                                     for x in records[1:min(k, 13)]], "token_example": summ["sample_token"]})
@@ -327,15 +371,25 @@ def run(tier, replay):
     ntok = 4096 if thorough else 1024
     shape_recs = None
     for pepper in (False, True):
-        t, recs = token_shape(auth, ntok, pepper, work, "p%d" % pepper)
+        try:
+            t, recs = token_shape(auth, ntok, pepper, work, "p%d" % pepper)
+        except vlib.ToolError as e:
+            if ctx.violations:     # L10: a tree that is already known to be broken may not even issue tokens
+                ctx.add_part("token structure pepper=%s" % pepper, skipped=str(e)[:300])
+                continue
+            raise
         ctx.add_tlc("TokenShape: %d tokens issued by the real provider (pepper=%s)" % (ntok, pepper), t)
         ctx.cov["evaluations"] += ntok
         ctx.cov["traces_validated_against_impl"] += 1
         ctx.add_part("token structure pepper=%s" % pepper, tokens=ntok, result="ok" if not t.violation else shape_failure_text(t),
                      example=recs[0]["t"])
+        for note in [x for x in t.prints if isinstance(x, dict) and "note" in x][:1]:
+            ctx.drift("C17 token encoding", "%s (lengths %s, lower bound of the capacity %s bits); e.g. %s"
+                      % (note["note"], note.get("lengths"), note.get("capacity_bits_lower_bound"), recs[0]["t"]),
+                      {"kind": "auth-token-format", "note": note, "tokens": [r["t"] for r in recs[:20]]})
         if t.violation:
             ctx.violation(shape_failure_text(t) + "; e.g. " + ", ".join(r["t"] for r in recs[:3]),
-                          {"kind": "auth-token-structure", "pepper": pepper, "finding": t.prints[-1] if t.prints else None,
+                          {"kind": "auth-token-structure", "pepper": pepper, "finding": ([x for x in t.prints if isinstance(x, dict) and "failed" in x] or [None])[-1],
                            "tokens": [r["t"] for r in recs]})
         shape_recs = shape_recs or recs
 
@@ -358,8 +412,7 @@ def run(tier, replay):
         short = [dict(x) for x in records[:k]] if k > 3 else [dict(x) for x in records[:200]]
         j = next((i for i, x in enumerate(short) if x["op"] in ("get_uid_by_token", "auth_route", "verify", "create_session")), None)
         if j is not None:
-            flip = {"ok": "InvalidToken", "InvalidToken": "ok", "200": "401", "401": "200", "true": "false", "false": "true",
-                    "UserNotFound": "ok", "SessionAlreadyExists": "ok"}
+            flip = {"ok": "err", "err": "ok", "200": "rej", "rej": "200", "true": "false", "false": "true"}
             short[j]["res"] = flip.get(short[j]["res"], "ok")
             trc = os.path.join(work, "trace-corrupt-%d.ndjson" % os.getpid())
             vlib.write_lines(trc, short)
@@ -367,19 +420,23 @@ def run(tier, replay):
                 tc = validate_trace(ctx, trc, "self-test")
             finally:
                 os.remove(trc)
-            ok = tc.violation == "invariant" and tc.prints and any(x["index"] == j + 1 for x in tc.prints[-1]["rejected"])
+            rj = [x for x in tc.prints if isinstance(x, dict) and "rejected" in x]
+            ok = tc.violation == "invariant" and rj and any(x["index"] == j + 1 for x in rj[-1]["rejected"])
             if not ok:
                 raise vlib.ToolError("binding self-test: a corrupted log record (%d) was not rejected by Trace_Auth" % (j + 1))
         # (c) the real tokens with the high digit of every byte overwritten by the low digit (an encoder writing one nibble
         #     twice), and with one digit position forced to 7 -> TokenShape must reject both
+        #     ... and cut to their first 32 characters (another encoding that cannot carry 256 bits) -> Capacity
         for name, fn, expect in (("nibble twice", lambda d: [d[(i | 1)] for i in range(len(d))], "NoTwinPos"),
-                                 ("constant position", lambda d: d[:10] + [7] + d[11:], "NoConstantPos")):
-            bad = [{"d": fn(list(r["d"]))} for r in shape_recs]
+                                 ("constant position", lambda d: d[:10] + [7] + d[11:], "NoConstantPos"),
+                                 ("half length", lambda d: d[:32], "Capacity")):
+            bad = [{"d": fn(list(r["d"])), "c": fn(list(r["c"]))} for r in shape_recs]
             tb = shape_verdict(bad, work, "selftest")
-            if not (tb.violation == "invariant" and tb.prints and expect in tb.prints[-1].get("failed", [])):
+            fl = [x for x in tb.prints if isinstance(x, dict) and "failed" in x]
+            if not (tb.violation == "invariant" and fl and expect in fl[-1].get("failed", [])):
                 raise vlib.ToolError("binding self-test: tokens corrupted by '%s' were not rejected by TokenShape (%s)" % (name, expect))
         ctx.add_part("binding self-test", corrupted_edge_rejected=True, corrupted_log_record_rejected=j is not None,
-                     corrupted_token_sets_rejected=2)
+                     corrupted_token_sets_rejected=3)
 
     ctx.cov["rule"] = ("every edge (state, call, result, successor) of the complete TLC state graph of Auth.tla for the bound is executed on a "
                        "real AuthProvider restored to the real state reached for that spec state (breadth-first, snapshots of the Vec<User> "
